@@ -2,7 +2,8 @@
 import vlib
 import client_common as cl
 
-WHAT = {"P07-begin-not-refused": "begin for an open token / at the maximum was not refused with ActiveTransaction",
+WHAT = {"P07-acts-on-another-token": "a reversal of this call names the receipt number of another open token",
+        "P07-begin-not-refused": "begin for an open token / at the maximum was not refused with ActiveTransaction",
         "P07-traffic-on-refused-call": "a refused call sent traffic to the terminal",
         "P07-begin-ok-without-successful-reservation": "begin succeeded without exactly one completed reservation carrying a receipt number",
         "P07-unknown-token-accepted": "commit/cancel for a token that is not open was not refused with UnknownToken",
@@ -50,6 +51,15 @@ def similar_tokens():
                      {"op": "begin", "token": [67], "amount": []}, {"op": "commit", "token": [66], "amount": [1]}]
             out.append({"config": {"max": 2 + code % 2}, "term": {"next_receipt": 11}, "calls": calls,
                         "plan": {"exchanges": [ok, ok, {"o": "abort", "code": code}], "default": ok}})
+    # ... and when the abort itself names a receipt number (2.10.1) - the other token's, its own, none, an unknown one
+    for code in (0xb8, 0x6c, 0x05, 0xb4, 0xff):
+        for named in (12, 11, 65535, 4711):
+            for closing in ("commit", "cancel"):
+                calls = [{"op": "begin", "token": [65], "amount": []}, {"op": "begin", "token": [66], "amount": []},
+                         {"op": closing, "token": [65], "amount": [1]}, {"op": "begin", "token": [66], "amount": []},
+                         {"op": "commit", "token": [66], "amount": [1]}]
+                out.append({"config": {"max": 2}, "term": {"next_receipt": 11}, "calls": calls,
+                            "plan": {"exchanges": [ok, ok, {"o": "abort", "code": code, "abort_receipt": named}], "default": ok}})
     return out
 
 
